@@ -177,3 +177,15 @@ package keeper
 //@   invariant true
 //@   before[C13.ct.each] ParseInLocation requires arg1 == deref["x/oracle/types.PriceTimeDetID"](deref["x/oracle/types.PriceSource"](msg.Prices[outer_phi1 + 1]).Prices[phi1 + 1]).Timestamp
 //@   step[C13.ct.each] defined(res_ParseInLocation_0)
+
+// C18 (the exported document validates and restores the state it was taken from): the asset id exported with a staker
+// list is the list's key RELATIVE to the collection's prefix - the walk is over the collection's own prefix store with an
+// empty iteration prefix, as in the exporter of the staker infos; SetStakerList puts the prefix back.
+//@ func (Keeper).GetAllStakerListAssets
+//@   flag noframe
+//@   flag pure=NativeTokenStakerListKey
+//@   before[C18.gasla.relative] KVStorePrefixIterator requires len(arg_prefix) == 0
+//@   before[C18.gasla.view] prefix.NewStore requires arg_prefix == str("NativeToken/stakerList/value/")
+//@   ensures[C18.gasla.view] defined(res_NewStore_0)
+//@ loop #1
+//@   invariant true
